@@ -414,23 +414,23 @@ func (e *kvElection) becomeLeader(token string, rev uint64) {
 		)...,
 	)
 
-	e.wg.Add(1)
-	go func() {
-		defer e.wg.Done()
-		e.heartbeatLoop(e.ctx)
-	}()
-
-	e.wg.Add(1)
-	go func() {
-		defer e.wg.Done()
-		e.validationLoop(e.ctx)
-	}()
-
 	termCtx, termCancel := context.WithCancel(e.ctx)
 	if e.termCancel != nil {
 		e.termCancel()
 	}
 	e.termCancel = termCancel
+
+	e.wg.Add(1)
+	go func() {
+		defer e.wg.Done()
+		e.heartbeatLoop(termCtx)
+	}()
+
+	e.wg.Add(1)
+	go func() {
+		defer e.wg.Done()
+		e.validationLoop(termCtx)
+	}()
 
 	if e.onPromote != nil {
 		log.Info("leader_promoted",
